@@ -637,8 +637,97 @@ def chain_and_owner_stream(ctx, res):
                     res.violate("C01:holds-undeclared:flag-off", "a field of a section whose feature flag is off does not validate what is assigned to it (an invalid value is held, or a "
                                 "valid one is not normalised)", dict(case, accepted=accepted, held=repr(held)))
 
+def transforming_container_validator_stream(ctx, res):
+    """A validator on a typed LIST or DICT field may hand back a new container (sorted, de-duplicated, filtered, `dict(value)`) —
+    "each validator can transform the value". What the configuration then holds is still a typed container: its items satisfy the
+    item field (they are normalised), and an in-place insertion made LATER (append, +=, item assignment, update, setdefault) is
+    validated — an unacceptable item is refused and the held value never contains it. Through assignment, constructor keyword,
+    load_tree, a document, the declared default, and inside a config type"""
+    import cincoconfig as cc
+
+    def declared(typed):
+        s = cc.Schema()
+        s.net.ports = cc.ListField(cc.PortField(), default=lambda: [8080, "22"], validator=lambda cfg, v: sorted(set(v)))
+        s.net.names = cc.ListField(cc.StringField(transform_case="lower", min_len=2), default=lambda: [], validator=lambda cfg, v: [x for x in v if x != "skip"])
+        s.net.same = cc.ListField(cc.IntField(min=0), default=lambda: [], validator=lambda cfg, v: v)
+        s.net.limits = cc.DictField(cc.StringField(), cc.IntField(min=0), default=dict, validator=lambda cfg, v: dict(v))
+        s.net.frozen = cc.ListField(cc.IntField(max=10), default=lambda: [], validator=lambda cfg, v: tuple(v))
+        return cc.make_type(s, "C01Transforming") if typed else s
+    bad_item = {"ports": "not a port", "names": "x", "same": -1, "frozen": 11}
+    good = {"ports": [443, "80", 80], "names": ["Alpha", "skip", "BETA"], "same": ["1", 2], "frozen": [1, "2"]}
+    held_want = {"ports": [80, 443], "names": ["alpha", "beta"], "same": [1, 2], "frozen": [1, 2]}
+    for typed in (False, True):
+        for route in ("assign", "dotted", "ctor", "load_tree", "json", "default"):
+            S = declared(typed)
+            try:
+                if route == "assign":
+                    cfg = S()
+                    for k, v in good.items():
+                        setattr(cfg.net, k, list(v))
+                    cfg.net.limits = {"a": "1"}
+                elif route == "dotted":
+                    cfg = S()
+                    for k, v in good.items():
+                        cfg["net." + k] = list(v)
+                    cfg["net.limits"] = {"a": "1"}
+                elif route == "ctor":
+                    cfg = S(net=dict({k: list(v) for k, v in good.items()}, limits={"a": "1"}))
+                elif route == "load_tree":
+                    cfg = S()
+                    cfg.load_tree({"net": dict({k: list(v) for k, v in good.items()}, limits={"a": "1"})})
+                elif route == "json":
+                    cfg = S()
+                    cfg.loads(json.dumps({"net": dict({k: list(v) for k, v in good.items()}, limits={"a": "1"})}).encode(), format="json")
+                else:
+                    cfg = S()
+            except Exception as e:  # noqa
+                res.violate("C01:transforming-validator", "a typed container field whose validator hands back a new container refused acceptable values: %s" % type(e).__name__,
+                            {"stream": "transforming-container-validator", "config_type": typed, "route": route, "error": str(e)[:100]})
+                continue
+            for key in ("ports", "names", "same", "frozen", "limits"):
+                case = {"stream": "transforming-container-validator", "config_type": typed, "route": route, "field": "net." + key}
+                res.case(stable(case), kind="transforming-container-validator")
+                held = cfg.net[key]
+                if key == "limits":
+                    if route != "default" and dict(held) != {"a": 1}:
+                        res.violate("C01:transforming-validator", "a typed dict whose validator hands back a new dict does not hold the normalised entries", dict(case, held=repr(held)))
+                    for label, do in (("d[k] = bad", lambda: held.__setitem__("b", -5)), ("update(bad)", lambda: held.update({"c": "x"})), ("setdefault(k, bad)", lambda: held.setdefault("e", -1))):
+                        try:
+                            do()
+                            refused = False
+                        except Exception:  # noqa
+                            refused = True
+                        if not refused or any(not isinstance(v, int) or v < 0 for v in cfg.net.limits.values()):
+                            res.violate("C01:invalid-value-held", "after a validator handed back a new dict, a later in-place insertion of an unacceptable value was not refused: "
+                                        "the configuration holds a value its field rejects", dict(case, op=label, held=repr(dict(cfg.net.limits))))
+                    continue
+                if route == "default":
+                    want = [8080, 22] if key == "ports" else []       # a declared default is normalised item by item; the field's validator is for values that are set
+                else:
+                    want = held_want[key]
+                if list(held) != want:
+                    res.violate("C01:transforming-validator", "a typed list whose validator hands back a new list does not hold the normalised items of that list", dict(case, held=repr(held), want=want))
+                for label, do in (("append(bad)", lambda: held.append(bad_item[key])), ("+= [bad]", lambda: held.__iadd__([bad_item[key]])), ("insert(0, bad)", lambda: held.insert(0, bad_item[key])),
+                                  ("l[0:0] = [bad]", lambda: held.__setitem__(slice(0, 0), [bad_item[key]]))):
+                    try:
+                        do()
+                        refused = False
+                    except Exception:  # noqa
+                        refused = True
+                    now = list(cfg.net[key])
+                    if not refused or bad_item[key] in now:
+                        res.violate("C01:invalid-value-held", "after a validator handed back a new list, a later in-place insertion of an unacceptable item was not refused: "
+                                    "the configuration holds a value its field rejects", dict(case, op=label, held=repr(now)))
+                        break
+            try:
+                cfg.validate()
+            except Exception as e:  # noqa
+                res.violate("C01:invalid-value-held", "validate() fails on a configuration reached through accepted / refused operations only",
+                            {"stream": "transforming-container-validator", "config_type": typed, "route": route, "error": str(e)[:100]})
+
 def run(ctx, n_quick=250, n_thorough=8000):
     res = Result()
+    guard(res, "C01", transforming_container_validator_stream, ctx, res)
     guard(res, "C01", chain_and_owner_stream, ctx, res)
 
     def orc(res, case, sk, ops, impl, live, tmp, keypath):
